@@ -38,7 +38,7 @@ def gen_cases(ctx):
     g = mapgen.MapGen(ctx.rng)
     cases = []
     for i, (feat, sp) in enumerate([("witness-" + f, w) for f, w in mapgen.WITNESSES[PROP]()] + shaped(g)):
-        c = mapgen.make_case("s%d" % i, sp)
+        c = mapgen.make_case("s%d" % i, sp, roundtrip=True)
         c["feat"] = feat
         cases.append(c)
     n = ctx.n(110, 2500)
@@ -57,7 +57,7 @@ def gen_cases(ctx):
             o = {"nested_tag": 1.0, "embeds": 1.0}
         elif r < 0.23:
             o = {"skip_shadow": 1.0, "embeds": 1.0}
-        c = mapgen.make_case("r%d" % i, g.pair(**o))
+        c = mapgen.make_case("r%d" % i, g.pair(**o), roundtrip=True)
         c["feat"] = "random"
         cases.append(c)
     return cases
